@@ -141,7 +141,7 @@ func MakeDoc(id string, ver int, rich bool) Doc {
 
 // Input is the value handed to Index(): a plain map, like a JSON document.
 func (d Doc) Input() map[string]interface{} {
-	m := map[string]interface{}{"ver": d.Ver}
+	m := map[string]interface{}{"ver": d.Ver, "_type": "doc"}
 	if d.Kw != "" {
 		m["kw"] = d.Kw
 	}
@@ -385,6 +385,12 @@ func Mapping(nested bool) mapping.IndexMapping {
 	extras := sub() // sibling array
 	extras.AddFieldMappingsAt("kind", kw())
 	dm.AddSubDocumentMapping("extras", extras)
-	im.DefaultMapping = dm
+	if nested {
+		// the nested mapping hangs off a type mapping, not the default mapping: documents carry "_type": "doc"
+		im.AddDocumentMapping("doc", dm)
+		im.DefaultMapping = bleve.NewDocumentDisabledMapping()
+	} else {
+		im.DefaultMapping = dm
+	}
 	return im
 }
